@@ -26,6 +26,8 @@ fn main() -> Result<(), Box<dyn std::error::Error>> {
         );
     let cmd_app = convert::add_subcommand(cmd_app);
     let cmd_app = remote::add_subcommand(cmd_app);
+    #[cfg(adlt_verif)]
+    let cmd_app = remote::verif_driver::add_subcommand(cmd_app);
     let matches = cmd_app.get_matches();
 
     // initialize logging
@@ -62,6 +64,8 @@ fn main() -> Result<(), Box<dyn std::error::Error>> {
                 .map(|_x| ())
         } // dont return anything here
         Some(("remote", sub_m)) => remote::remote(&log, sub_m, false),
+        #[cfg(adlt_verif)]
+        Some(("verif-driver", _sub_m)) => remote::verif_driver::run_driver(),
         _ => Err(Box::new(io::Error::new(
             io::ErrorKind::Unsupported,
             "unknown subcommand",
